@@ -174,10 +174,17 @@ func newServerWorld(x *X) *serverWorld {
 
 // startServer creates the listener and runs Serve in a harness task.
 func (w *serverWorld) startServer(serverEP func(name string) simnet.EP, acceptLatePM int) {
+	w.startServerWith(serverEP, acceptLatePM, nil)
+}
+
+func (w *serverWorld) startServerWith(serverEP func(name string) simnet.EP, acceptLatePM int, configure func(*kmipserver.Server)) {
 	w.ln = simnet.NewListener(w.s)
 	w.ln.ServerEP = serverEP
 	w.ln.AcceptLate = acceptLatePM
 	w.srv = kmipserver.NewServer(w.ln, w.exec)
+	if configure != nil {
+		configure(w.srv)
+	}
 	w.s.Spawn("serve", func() {
 		w.serveErr = w.srv.Serve()
 		w.serveReturned = true
